@@ -134,6 +134,12 @@ type analysis struct {
 	HasLocks bool
 	// Gos: every go statement in scope (gofacts.go)
 	Gos []goFact
+	// Accepted: size-dependent partial operations accepted by an idiom or the allow list
+	Accepted []acceptedSite
+	// MayNil: functions (FullName#result) that may return a nil pointer / interface with a nil error
+	MayNil []string
+	// Pages: iterators that turn pages (gofacts.go)
+	Pages []pageTurn
 }
 
 func recvName(fd *ast.FuncDecl) string {
@@ -176,17 +182,25 @@ func analyseScope(repo string, scope map[string]func(file string) bool, allowTex
 		return nil, err
 	}
 	an := &analysis{Allow: al}
+	summaries := mayNilSummaries(pkgs, func(name string) bool { return al.covers(name, "maynil-callee", "*") })
+	for name, ks := range summaries {
+		for k := range ks {
+			an.MayNil = append(an.MayNil, fmt.Sprintf("%s#%d", name, k))
+		}
+	}
+	sort.Strings(an.MayNil)
 	seen := map[string]bool{}
 	for _, l := range pkgs {
 		rel := strings.TrimPrefix(strings.TrimPrefix(l.Path, modPath), "/")
 		seen[rel] = true
 		filter := scope[rel]
-		x := &xl{fset: fset, l: l, repo: repo, sites: &an.Sites, allow: al, ctorMaps: ctorMapFields(l)}
+		x := &xl{fset: fset, l: l, repo: repo, sites: &an.Sites, allow: al, ctorMaps: ctorMapFields(l), mayNil: summaries, acceptedOut: &an.Accepted}
 		if rel == "" {
 			an.Locks = lockFactsOf(l, only("session.go"), fset)
 			an.HasLocks = true
 		}
 		an.Gos = append(an.Gos, goFactsOf(l, scope[rel], fset)...)
+		an.Pages = append(an.Pages, pageTurnsOf(l, scope[rel])...)
 		pkgName := l.Pkg.Name()
 		for i, file := range l.Files {
 			if filter != nil && !filter(l.Names[i]) {
@@ -246,6 +260,8 @@ func Facts(repo string) (string, error) {
 		b.WriteString("def trustedSites : Nat := 0\n")
 		b.WriteString(leanLockFacts(nil, err))
 		b.WriteString(leanGoFacts(nil, false))
+		b.WriteString(leanPageTurns(nil, false))
+		b.WriteString("def acceptedSizes : List (String × String × String) := []\n")
 		b.WriteString("end XmppModel.Generated.C09\n")
 		return b.String(), nil
 	}
@@ -277,6 +293,16 @@ func Facts(repo string) (string, error) {
 		b.WriteString(leanLockFacts(nil, fmt.Errorf("session.go not in scope")))
 	}
 	b.WriteString(leanGoFacts(an.Gos, true))
+	b.WriteString(leanPageTurns(an.Pages, true))
+	b.WriteString("/-- size-dependent partial operations accepted without a hazard: (function, kind, expression text) -/\n")
+	b.WriteString("def acceptedSizes : List (String × String × String) := [\n")
+	for i, a := range an.Accepted {
+		if i > 0 {
+			b.WriteString(",\n")
+		}
+		fmt.Fprintf(&b, "  (%q, %q, %q)", a.Fn, a.Kind, a.Expr)
+	}
+	b.WriteString("]\n")
 	b.WriteString("\n/-! Sites:\n")
 	for _, s := range an.Sites {
 		if s.Kind == "loop" {
